@@ -376,7 +376,9 @@ def _mk_shorter_fence_line(ntail):
         # fence line - optional padding, m backticks, then symbolic text (its would-be info string) - is content
         from crosshair.core import realize
 
-        fi, m, pad, ti = realize(fi), realize(m), realize(pad), realize(ti)
+        from vf.ob import pick
+
+        fi, m, pad, ti = pick(fi, 2, 1), pick(m, 2, 3), pick(pad, 2), pick(ti, 1)
         if m >= len(FENCES[fi]):
             return SKIP
         body = (head + "\n" if head != "" else "") + " " * pad + "`" * m + tail
@@ -399,7 +401,9 @@ def _mk_prepass(n1):
 
         from crosshair.tracers import NoTracing
 
-        fi, tagged, pad, i1, i2 = realize(fi), realize(tagged), realize(pad), realize(i1), realize(i2)
+        from vf.ob import pick, pickb
+
+        fi, tagged, pad, i1, i2 = pick(fi, 3), pickb(tagged), pick(pad, 3), pick(i1, 14), pick(i2, 4)
         fence = FENCES[fi]
         l1 = ["", '""', "//", '"a"', "// c", "```", "````", '"', "`", "x", "{", "A{b}", 'k::"v" // c', "\t"][i1]
         l2 = ["", "x", "}", " // c"][i2]
